@@ -123,7 +123,7 @@ Next == /\ out = <<>>
            \/ NStreams >= 3 /\ \E f \in Faulty, g \in Faulty :
                  LET streams == << f, <<"healthy", 0, Healthy>>, g >>
                      tagged == [k \in 1..3 |-> [i \in 1..Len(streams[k][3]) |-> WithSid(streams[k][3][i], 4 * (k - 1))]]
-                 IN \E inter \in Interleavings(tagged) : Len(f[3]) + Len(g[3]) <= 4 /\ out' = Scn(streams, inter)
+                 IN Len(f[3]) + Len(g[3]) <= 4 /\ \E inter \in Interleavings(tagged) : out' = Scn(streams, inter)
            \/ \E c \in Codes : out' = Lag(c)
            \/ \E f \in FaultyR, healthyFirst \in BOOLEAN :
                  LET streams == IF healthyFirst THEN << <<"healthy", 0, HealthyR>>, f >> ELSE << f, <<"healthy", 0, HealthyR>> >>
